@@ -35,6 +35,22 @@ Theorem C07_expiry : forall f r w,
 Proof. exact exchange_starts_with_handshake. Qed.
 Print Assumptions C07_expiry.
 
+
+(* K4 (known finding), as a kernel-checked witness in the session model: the first handshake request (counter 0) is answered
+   2.499 s later, i.e. after its 2 s read timeout; the retry (counter 1, written at 2.0 s) accepts that late reply.  The client
+   now holds key 1 while the appliance's latest handshake produced key 2: the data packet (under key 1) is answered under key 2,
+   which the client rejects with a protocol error; the connection is dropped and the next exchange re-authenticates (key 3).
+   Handshake replies are not correlated with handshake requests. *)
+Theorem C07_handshake_replies_not_correlated :
+  (let '(o, w) := run_ops [OAuth (Some true) 2; OTick 607; OSend 19 3; OSend 20 3]
+                    (world_init [ConnOk; ConnOk] [[(2499, RHsOk)]; [(4501, RHsOk)]; [(0, RHsOk)]] [[(0, RFrame 7)]; [(0, RFrame 8)]])
+   in (o, w_log w))
+  = ([OutUnit; OutUnit; OutErr EProtocol; OutFrames [8]],
+     [EvConnect 0 true; EvHs 0 0 true; EvHs 0 1 true; EvAuthOk 0 1; EvData 0 2 1 19; EvClose 0;
+      EvConnect 1 true; EvHs 1 0 true; EvAuthOk 1 3; EvData 1 1 3 20]).
+Proof. vm_compute. reflexivity. Qed.
+Print Assumptions C07_handshake_replies_not_correlated.
+
 Example C07_nonvacuous :
   let w := snd (run_ops [OAuth (Some true) 3; OSend 7 3; OTick 50000000; OSend 8 3]
                         (world_init [] [[(0, RHsOk)]; [(0, RHsOk)]] [[(0, RFrame 1)]; [(0, RFrame 2)]])) in
